@@ -115,7 +115,7 @@ SPEC = {
         "TestScenarioPlaceholders/section:calls": 0.1, "TestScenarioPlaceholders/section:scenarios": 0.1,
         "TestScenarioPlaceholders/section:variable_sources": 0.1,
         # classes added after seeded defect C17/m12 (long property lines)
-        "TestLongProperty/long_value": 0.55, "TestLongProperty/line:ge_4096": 0.35, "TestLongProperty/line:around_4096": 0.2,
+        "TestLongProperty/long_value": 0.45, "TestLongProperty/line:ge_4096": 0.3, "TestLongProperty/line:around_4096": 0.2,
         "TestLongProperty/line:4096..4102": 0.07, "TestLongProperty/line:8k..16k": 0.05, "TestLongProperty/line:16k..32k": 0.03,
         "TestLongProperty/line:32k..64k": 0.015, "TestLongProperty/line:65400..65500": 0.02,
         "TestLongProperty/pos:string_field": 0.3, "TestLongProperty/pos:list_item": 0.15, "TestLongProperty/pos:map_value": 0.04,
